@@ -27,6 +27,9 @@ func VerifC09UpdateStep(v *vrt.T) {
 			p := t.sorted[i-1]
 			// strictly increasing in the comparator's order => distinct IDs, valid `sorted`
 			v.Assume(p.Level > e.Level || (p.Level == e.Level && p.ID < e.ID))
+			for _, q := range t.sorted {
+				v.Assume(q.ID != e.ID) // one state per ID
+			}
 		}
 		t.events[e.ID] = e
 		t.sorted = append(t.sorted, e)
@@ -113,7 +116,7 @@ func VerifC09Delivery(v *vrt.T) {
 	ts := NewTopics(0)
 	topics := []string{"t1", "t2"}
 	hs := []*verifRecHandler{{name: "h1"}, {name: "h2"}}
-	want := [][]verifSeen{nil, nil}
+	want := [2][2][]verifSeen{} // want[handler][topic]: FIFO is per handler registration (one buffer per topic)
 	reg := [2][2]bool{} // reg[topic][handler]
 	last := []map[string]Level{{}, {}}
 	k := v.Bound("ops", 4)
@@ -128,7 +131,7 @@ func VerifC09Delivery(v *vrt.T) {
 			pl, known := last[ti][id]
 			for hi := 0; hi < 2; hi++ {
 				if reg[ti][hi] {
-					want[hi] = append(want[hi], verifSeen{topics[ti], id, lvl, pl, known})
+					want[hi][ti] = append(want[hi][ti], verifSeen{topics[ti], id, lvl, pl, known})
 				}
 			}
 			last[ti][id] = lvl
@@ -145,12 +148,20 @@ func VerifC09Delivery(v *vrt.T) {
 	v.Goroutines() // let the buffered handlers drain
 	for hi := 0; hi < 2; hi++ {
 		v.Observe("delivered", len(hs[hi].seen))
-		v.Assert(len(hs[hi].seen) == len(want[hi]), "handler received exactly the events of its topics while registered")
-		if len(hs[hi].seen) == len(want[hi]) {
-			for i := range want[hi] {
-				g, w := hs[hi].seen[i], want[hi][i]
-				v.Assert(g.topic == w.topic && g.id == w.id && g.level == w.level, "events arrive in collection order")
-				v.Assert(g.prevKnown == w.prevKnown && (!w.prevKnown || g.prevLevel == w.prevLevel), "previous level is the level of the preceding event with the same ID")
+		for ti := 0; ti < 2; ti++ {
+			var got []verifSeen
+			for _, g := range hs[hi].seen {
+				if g.topic == topics[ti] {
+					got = append(got, g)
+				}
+			}
+			w := want[hi][ti]
+			v.Assert(len(got) == len(w), "handler received exactly the events of its topic while registered")
+			if len(got) == len(w) {
+				for i := range w {
+					v.Assert(got[i].id == w[i].id && got[i].level == w[i].level, "events of a topic arrive in collection order")
+					v.Assert(got[i].prevKnown == w[i].prevKnown && (!w[i].prevKnown || got[i].prevLevel == w[i].prevLevel), "previous level is the level of the preceding event with the same ID")
+				}
 			}
 		}
 	}
